@@ -7,7 +7,8 @@ from harness.plans import plan
 
 ID = "C15"
 
-UNARY = ["sin", "cos", "tanh", "exp", "log1p_abs", "square", "neg", "abs", "sigmoid", "sqrt1p", "floor", "int_roundtrip", "clip", "relu_where", "sign_mul"]
+UNARY = ["sin", "cos", "tanh", "exp", "log1p_abs", "square", "neg", "abs", "sigmoid", "sqrt1p", "floor", "int_roundtrip", "clip", "relu_where", "sign_mul",
+         "relu", "softplus", "complex_roundtrip", "fft_power", "guarded_sqrt", "top2", "switch3", "leaky_selu"]
 BINARY = ["add", "sub", "mul", "div", "maximum", "where_gt"]
 
 
@@ -45,6 +46,28 @@ def apply_unary(op, x):
         return jnp.where(x > 0.1, x, 0.25 * x)  # boolean intermediate
     if op == "sign_mul":
         return jnp.sign(x) * x
+    if op == "relu":  # custom_jvp function
+        return jax.nn.relu(x) * x
+    if op == "softplus":
+        return jax.nn.softplus(x)
+    if op == "leaky_selu":
+        return jax.nn.selu(x) + jax.nn.leaky_relu(x)
+    if op == "complex_roundtrip":  # complex intermediate
+        return jnp.real(jnp.exp(1j * x) * x)
+    if op == "fft_power":
+        v = jnp.atleast_1d(x)
+        return jnp.sum(jnp.abs(jnp.fft.fft(v.reshape(-1))) ** 2) + 0.0 * x
+    if op == "guarded_sqrt":  # lax.cond guarding a branch whose derivative is singular where the other branch is taken
+        v = jnp.sum(x)
+        return jax.lax.cond(v > 0.0, lambda z: jnp.sqrt(z) * z, lambda z: -2.0 * z, v) + 0.0 * x
+    if op == "top2":  # multi-result primitive
+        v = jnp.atleast_1d(x).reshape(-1)
+        v = jnp.concatenate([v, v[:1] + 1.0])
+        vals, idx = jax.lax.top_k(v, 2)
+        return jnp.sum(vals**2) + 0.0 * jnp.sum(idx) + 0.0 * x
+    if op == "switch3":  # N-way switch on a data-dependent index
+        i = jnp.clip(jnp.floor(jnp.abs(jnp.sum(x))).astype(jnp.int32), 0, 2)
+        return jax.lax.switch(i, [lambda v: jnp.sin(v), lambda v: v * 2.0, lambda v: v * v], x)
     raise ValueError(op)
 
 
@@ -254,10 +277,11 @@ def one_case(ctx, case):
     env.reset()
     fails, info = classify(case)
     kinds = {i[0] for i in case["prog"]}
-    nondiff = any(i[0] == "un" and i[1] in ("floor", "int_roundtrip", "relu_where", "sign_mul", "clip") for i in case["prog"]) or any(i[0] == "index" and i[1] in ("gather_computed", "argmax") for i in case["prog"])
+    nondiff = any(i[0] == "un" and i[1] in ("floor", "int_roundtrip", "relu_where", "sign_mul", "clip", "relu", "top2", "switch3", "guarded_sqrt") for i in case["prog"]) or any(i[0] == "index" and i[1] in ("gather_computed", "argmax") for i in case["prog"])
     nt = (len(case["prog"]) >= 3 and bool(kinds & {"shape", "index", "linalg", "reduce"})) or nondiff or case["argspec"] in ("dict", "tuple_nested")
     ctx.case(case, nt, [f"C15.args_{case['argspec']}"] + [f"C15.op_{k}" for k in sorted(kinds)] + (["C15.nondifferentiable_intermediate"] if nondiff else []) +
-             [f"C15.cond_{i[1]}" for i in case["prog"] if i[0] == "cond"], sample={**case, "info": info})
+             [f"C15.cond_{i[1]}" for i in case["prog"] if i[0] == "cond"] + [f"C15.special_{i[1]}" for i in case["prog"] if i[0] == "un" and i[1] in ("relu", "complex_roundtrip", "fft_power", "guarded_sqrt", "top2", "switch3")],
+             sample={**case, "info": info})
     for b, w in fails:
         ctx.fail(b, w, case)
 
